@@ -51,7 +51,7 @@ impl super::Processor for Zip {
     fn initialize(&mut self) -> Result<()> {
         let unix_epoch = match self.config.source_date_epoch {
             None => bail!("{} handler requires $SOURCE_DATE_EPOCH to be set", self.extension),
-            Some(v) => time::OffsetDateTime::from_unix_timestamp(v).unwrap(),
+            Some(v) => time::OffsetDateTime::from_unix_timestamp(v)?,
         };
         let dos_epoch = zip::DateTime::try_from(unix_epoch)?;
 
